@@ -199,6 +199,8 @@ type ordNet struct {
 	timed      bool
 	feedhub    bool // the replicas run the node's real feed hub between order layer and executor
 	propLoss   bool // half of the forwarded proposals (raft MsgProp) are lost
+	hookSeed   int64
+	slowProp   bool // a cut batch waits (hook raft.before_propose) before it is proposed: leadership may change in between
 	typ        string
 	n          int
 	batch      int
@@ -325,6 +327,22 @@ func (nw *ordNet) spawn(id uint64, extraEnv []string, extraArgs ...string) error
 	}
 	args = append(args, extraArgs...)
 	cmd := exec.Command(nw.self, args...)
+	if nw.slowProp {
+		// every incarnation of every replica: a batch that has been cut waits up to 300 ms (three times out of
+		// ten) before it is handed to raft - the place where the node's propose goroutine is parked anyway
+		slow := "raft.before_propose=sleep:300000:0.3"
+		merged := false
+		for i, e := range extraEnv {
+			if strings.HasPrefix(e, "VERIF_HOOKS=") {
+				extraEnv = append(append([]string{}, extraEnv[:i]...), append([]string{e + "," + slow}, extraEnv[i+1:]...)...)
+				merged = true
+				break
+			}
+		}
+		if !merged {
+			extraEnv = append(append([]string{}, extraEnv...), "VERIF_HOOKS="+slow, fmt.Sprintf("VERIF_HOOK_SEED=%d", nw.hookSeed+int64(id)*1000+int64(inc)))
+		}
+	}
 	cmd.Env = append(os.Environ(), extraEnv...)
 	stdin, err := cmd.StdinPipe()
 	if err != nil {
@@ -417,7 +435,7 @@ func (nw *ordNet) kill(id uint64) {
 	}
 }
 
-var ignoreRe = regexp.MustCompile(`expects to execute seq=(\d+), idx=\d+, but get seq=(\d+)`)
+var ignoreRe = regexp.MustCompile(`expects to execute seq=(\d+), idx=(\d+), but get seq=(\d+)`)
 
 func ordScenario(w *vlog.W, a *wargs, id int, rng *rand.Rand, viol func(sig, detail string)) (shape string, nontrivial bool) {
 	self := os.Getenv("VERIF_SELF")
@@ -459,6 +477,11 @@ func ordScenario(w *vlog.W, a *wargs, id int, rng *rand.Rand, viol func(sig, det
 	nw.propLoss = typ == "raft" && rng.Intn(3) == 0
 	if nw.propLoss {
 		w.Count("scenario:forwarded-proposals-lost", 1)
+	}
+	nw.slowProp = typ == "raft" && rng.Intn(3) == 0
+	nw.hookSeed = rng.Int63n(1 << 30)
+	if nw.slowProp {
+		w.Count("scenario:batches-wait-before-propose", 1)
 	}
 	nw.maxDelay = time.Duration(rng.Intn(15)) * time.Millisecond
 	for i := 1; i <= n; i++ {
@@ -562,9 +585,9 @@ func ordScenario(w *vlog.W, a *wargs, id int, rng *rand.Rand, viol func(sig, det
 			events["resubmit"]++
 		}
 		switch x := rng.Intn(100); {
-		case x < 5 && n > 1: // isolate a node for a while: half of the time the (presumed) leader, right after a burst
+		case (x < 5 || (nw.slowProp && x >= 96)) && n > 1: // isolate a node for a while: half of the time the (presumed) leader, right after a burst
 			victim := uint64(1 + rng.Intn(n))
-			if rng.Intn(2) == 0 {
+			if rng.Intn(2) == 0 || (nw.slowProp && rng.Intn(3) != 0) {
 				if b := nw.busiest(); b != 0 {
 					victim = b
 					for k := 0; k < 2+rng.Intn(5); k++ {
@@ -723,21 +746,45 @@ func ordScenario(w *vlog.W, a *wargs, id int, rng *rand.Rand, viol func(sig, det
 	w.Count("txs_delivered", int64(len(txAt)))
 	w.Count("txs_submitted", int64(len(submitted)))
 	// leader changes / snapshot catch-ups as seen in the nodes' logs
+	// the node's own account of a committed batch it did not deliver: legitimate when the batch is at or below
+	// the last executed height (replay, or a deposed leader's duplicate). A batch *above* the expected height is
+	// a skipped entry when this replica stands alone with it (the others executed what lies in between and
+	// this one never will). When another replica refused the very same log entry (same raft index, same
+	// height) nobody executed it: a batch that a deposed leader had cut ahead of what was ever committed
+	// reached the log through its successor (forwarded proposal) - refusing it is the only answer that keeps
+	// heights consecutive, and its transactions are still in the pools.
+	type ign struct{ want, idx, got uint64 }
+	ignored := map[uint64][]ign{}
+	refusedBy := map[[2]uint64]map[uint64]bool{} // (raft index, height) -> replicas that refused it
 	for i := 1; i <= n; i++ {
 		b, _ := ioutil.ReadFile(filepath.Join(base, fmt.Sprintf("node%d.stderr", i)))
 		s := string(b)
 		w.Count("obs_leader_changes", int64(strings.Count(s, "Raft leader changed")))
-		// the node's own account of a committed batch it did not deliver: legitimate when the batch is at or
-		// below the last executed height (replay, or a deposed leader's duplicate), a skipped entry when above
+		w.Count("obs_proposals_refused_by_raft", int64(strings.Count(s, "Failed to propose block")))
 		for _, mm := range ignoreRe.FindAllStringSubmatch(s, -1) {
-			var want, got uint64
-			fmt.Sscan(mm[1], &want)
-			fmt.Sscan(mm[2], &got)
-			if got > want {
-				viol("delivery:entry-skipped:"+typ, fmt.Sprintf("%s replica %d ignored the committed batch of height %d while waiting for height %d: the entry of height %d was compacted away or skipped without having been executed; events %v", kind, i, got, want, want, events))
-			} else {
-				w.Count("obs_ignored_stale_batches", 1)
+			var g ign
+			fmt.Sscan(mm[1], &g.want)
+			fmt.Sscan(mm[2], &g.idx)
+			fmt.Sscan(mm[3], &g.got)
+			ignored[uint64(i)] = append(ignored[uint64(i)], g)
+			k := [2]uint64{g.idx, g.got}
+			if refusedBy[k] == nil {
+				refusedBy[k] = map[uint64]bool{}
 			}
+			refusedBy[k][uint64(i)] = true
+		}
+	}
+	for i := 1; i <= n; i++ {
+		for _, g := range ignored[uint64(i)] {
+			if g.got <= g.want {
+				w.Count("obs_ignored_stale_batches", 1)
+				continue
+			}
+			if len(refusedBy[[2]uint64{g.idx, g.got}]) > 1 {
+				w.Count("obs_orphan_batches_ahead_refused", 1)
+				continue
+			}
+			viol("delivery:entry-skipped:"+typ, fmt.Sprintf("%s replica %d ignored the committed batch of height %d (raft index %d) while waiting for height %d, and no other replica refused that entry: the entry of height %d was compacted away or skipped without having been executed; events %v", kind, i, g.got, g.idx, g.want, g.want, events))
 		}
 	}
 	for i := 1; i <= n; i++ {
@@ -756,7 +803,7 @@ func ordScenario(w *vlog.W, a *wargs, id int, rng *rand.Rand, viol func(sig, det
 		ev = append(ev, k)
 	}
 	sort.Strings(ev)
-	return fmt.Sprintf("%s|b%d|loss%v|timed%v|lag%d|%s", kind, nw.batch, nw.dropP > 0, nw.timed, nw.lag, strings.Join(ev, ",")), len(ev) > 0
+	return fmt.Sprintf("%s|b%d|loss%v|timed%v|lag%d|slowprop%v|%s", kind, nw.batch, nw.dropP > 0, nw.timed, nw.lag, nw.slowProp, strings.Join(ev, ",")), len(ev) > 0
 }
 
 func ord20Workload(args []string) int {
